@@ -14,6 +14,7 @@ mod isa;
 mod mc;
 mod report;
 mod sandbox;
+mod sched;
 mod sut;
 
 use report::Tier;
@@ -26,6 +27,9 @@ fn main() {
     }
     if args[1] == "worker16" {
         std::process::exit(sandbox::worker_main());
+    }
+    if args[1] == "worker17" {
+        std::process::exit(checks::c17::worker_main(&args));
     }
     // Checks recurse into avra-rs on worker threads; give them room so that only C16's
     // sandboxed workers (which use the 8 MiB a CLI user gets) ever see a stack overflow.
